@@ -181,6 +181,38 @@ theorem maskSel_lt (n : Nat) (m : List Bool) : ∀ p ∈ maskSel n m, p < n := b
   intro p hp
   exact List.mem_range.mp (List.mem_filter.mp hp).1
 
+theorem sliceSel_nodup (n : Nat) (st sp : Option Int) (k : Int) : (sliceSel n st sp k).Nodup := by
+  unfold sliceSel
+  simp only []
+  split
+  · exact List.Nodup.sublist List.filter_sublist List.nodup_range
+  · exact nodup_reverse' (List.Nodup.sublist List.filter_sublist List.nodup_range)
+
+/-- a selection that numpy answers with a view (a basic slice) names pairwise different positions. -/
+theorem resolve_view_nodup (n : Nat) (ix : Index) (sel : Sel) (h : resolve n ix = .ok sel) (hv : sel.view = true) :
+    sel.pos.Nodup := by
+  cases ix with
+  | int i =>
+    simp only [resolve] at h
+    split at h
+    · injection h with h; subst h; simp at hv
+    · cases h
+  | slice st sp step =>
+    simp only [resolve] at h
+    split at h
+    · cases h
+    · injection h with h; subst h; exact sliceSel_nodup _ _ _ _
+  | list l =>
+    simp only [resolve] at h
+    injection h with h; subst h; simp at hv
+  | mask m =>
+    simp only [resolve] at h
+    split at h
+    · injection h with h; subst h; simp at hv
+    · split at h
+      · injection h with h; subst h; simp at hv
+      · cases h
+
 /-- every position selected by an index is a position of the axis; integer indices select one row. -/
 theorem resolve_ok (n : Nat) (ix : Index) (sel : Sel) (h : resolve n ix = .ok sel) :
     (∀ p ∈ sel.pos, p < n) ∧ SelOK sel := by
@@ -241,6 +273,16 @@ theorem subArr_mem (a : Arr) (sel : Sel) (hpos : ∀ p ∈ sel.pos, p < a.idx.le
   simp only [List.getElem?_eq_getElem hlt, Option.getD_some]
   exact List.getElem_mem hlt
 
+theorem subArr_nodup (a : Arr) (sel : Sel) (hnd : a.idx.Nodup) (hpos : ∀ p ∈ sel.pos, p < a.idx.length)
+    (hsel : sel.pos.Nodup) : (subArr a sel).idx.Nodup := by
+  simp only [subArr]
+  apply nodup_map_on _ hsel
+  intro x hx y hy hxy
+  have hx' := hpos x hx
+  have hy' := hpos y hy
+  simp only [List.getElem?_eq_getElem hx', List.getElem?_eq_getElem hy', Option.getD_some] at hxy
+  exact nodup_getElem_inj hnd x y hx' hy' hxy
+
 theorem arrRows_bufOK {κ : Nat → String} {s : State} (h : InvK κ s) {a : Arr} (hv : ArrValid s a) :
     BufOK ⟨arrDt s a, arrTrail s a, arrRows s a⟩ := by
   have hb := h.buf_ok a.buf
@@ -272,16 +314,17 @@ theorem indexGet_cases (a : Arr) (sel : Sel) (s : State) :
 
 /-- `arr[sel]`: a view of the same buffer or a fresh copy filed under the same key. -/
 theorem inv_indexGet {κ : Nat → String} {s : State} (h : InvK κ s) (a : Arr) (sel : Sel) (key : String)
-    (hv : ArrValid s a) (hk : κ a.buf = key) (hpos : ∀ p ∈ sel.pos, p < a.idx.length) :
+    (hv : ArrValid s a) (hk : κ a.buf = key) (hpos : ∀ p ∈ sel.pos, p < a.idx.length) (hnd : a.idx.Nodup)
+    (hsel : sel.view = true → sel.pos.Nodup) :
     Post (indexGet a sel) s (fun r s' => ∃ κ', InvK κ' s' ∧ Ext κ s κ' s' ∧ s'.objs = s.objs ∧ s'.syss = s.syss ∧
-      ∀ q, r = .ok q → ArrValid s' q ∧ κ' q.buf = key ∧ q.idx.length = sel.pos.length) := by
-  rcases indexGet_cases a sel s with ⟨e, he⟩ | ⟨_, he⟩ | ⟨_, he⟩
+      ∀ q, r = .ok q → ArrValid s' q ∧ κ' q.buf = key ∧ q.idx.length = sel.pos.length ∧ q.idx.Nodup) := by
+  rcases indexGet_cases a sel s with ⟨e, he⟩ | ⟨hview, he⟩ | ⟨_, he⟩
   · exact Post.of_eq _ _ he ⟨κ, h, Ext.refl κ s, rfl, rfl, fun q hq => by cases hq⟩
   · apply Post.of_eq _ _ he
     refine ⟨κ, h, Ext.refl κ s, rfl, rfl, ?_⟩
     intro q hq
     injection hq with hq; subst hq
-    exact ⟨subArr_valid hv sel hpos, hk, by simp [subArr]⟩
+    exact ⟨subArr_valid hv sel hpos, hk, by simp [subArr], subArr_nodup a sel hnd hpos (hsel hview)⟩
   · apply Post.of_eq _ _ he
     have hsub := subArr_valid hv sel hpos
     have hbuf : BufOK ⟨arrDt s a, arrTrail s a, arrRows s (subArr a sel)⟩ := arrRows_bufOK h hsub
@@ -289,7 +332,7 @@ theorem inv_indexGet {κ : Nat → String} {s : State} (h : InvK κ s) (a : Arr)
     refine ⟨_, hinv1, hext1, rfl, rfl, ?_⟩
     intro q hq
     injection hq with hq; subst hq
-    refine ⟨⟨by simp, ?_⟩, by simp [upd], by simp⟩
+    refine ⟨⟨by simp, ?_⟩, by simp [upd], by simp, List.nodup_range⟩
     intro i hi
     rw [buf_append_eq]
     simpa [arrRows, subArr] using hi
@@ -350,6 +393,7 @@ theorem inv_getItem {κ : Nat → String} {s : State} (h : InvK κ s) (o : Nat) 
   | ok sel =>
     simp only []
     obtain ⟨hpos, _⟩ := resolve_ok _ _ _ hres
+    have hselnd := resolve_view_nodup _ _ _ hres
     rw [post_bind]
     have hloop := post_mapEach_ghost (s.obj o).props
       (fun p => do
@@ -364,7 +408,7 @@ theorem inv_getItem {κ : Nat → String} {s : State} (h : InvK κ s) (o : Nat) 
         have hp0 := h.obj_props o p hp
         rw [post_bind]
         apply Post.mono (inv_indexGet hg p.arr sel p.key (hp0.valid.mono hge.le)
-          ((hge.agree _ hp0.valid.1).trans hp0.key) (by rw [hp0.len]; exact hpos))
+          ((hge.agree _ hp0.valid.1).trans hp0.key) (by rw [hp0.len]; exact hpos) hp0.nodup hselnd)
         intro r st' ⟨g', hg', hge', hgo', hgs', hq⟩
         cases r with
         | error e => exact ⟨g', ⟨hg', hge.trans hge', by rw [hgo', hgo], by rw [hgs', hgs]⟩, hge', fun c hc => by cases hc⟩
@@ -377,8 +421,8 @@ theorem inv_getItem {κ : Nat → String} {s : State} (h : InvK κ s) (o : Nat) 
             have : (Except.ok ⟨p.key, a⟩ : Except Err PropRef) = .ok c := hc
             injection this with this; exact this.symm
           subst this
-          obtain ⟨h1, h2, _⟩ := hq a rfl
-          exact ⟨h1, h2⟩)
+          obtain ⟨h1, h2, _, h4⟩ := hq a rfl
+          exact ⟨h1, h2, h4⟩)
       κ s ⟨h, Ext.refl κ s, rfl, rfl⟩
     apply Post.mono hloop
     intro r s1 ⟨κ1, ⟨hinv1, hext1, hobjs1, hsys1⟩, _, hall⟩
@@ -427,7 +471,7 @@ theorem inv_deepcopy {κ : Nat → String} {s : State} (h : InvK κ s) (o : Nat)
         have : (Except.ok ⟨p.key, ⟨st.heap.length, List.range (arrRows s p.arr).length⟩⟩ : Except Err PropRef) = .ok c := hc
         injection this with this; exact this.symm
       subst this
-      refine ⟨⟨by simp, ?_⟩, by simp [upd]⟩
+      refine ⟨⟨by simp, ?_⟩, by simp [upd], List.nodup_range⟩
       intro i hi
       rw [buf_append_eq]
       simpa using hi)
